@@ -137,8 +137,13 @@ def _dec_skeleton(F, fid, args):
                 return
         s = set()
         _syms(val, s)
+        ex = _exact_syms(val)
         for x in s:
-            field_of.setdefault(x, prefix)
+            if x in ex:
+                field_of.setdefault(x, prefix)
+            else:
+                altered.setdefault(x, prefix)      # the field holds a function of the value read, not the value itself
+    altered = {}
     if isinstance(res, tuple) and res and res[0] == "struct":
         label(res, "")
     # values stored later through aliases (`properties.x = ..`) are not needed: property sets are single tokens
@@ -170,7 +175,38 @@ def _dec_skeleton(F, fid, args):
             else:
                 out.append((k, None))
         return out
+    it.altered = {k: v for k, v in altered.items() if k not in field_of}
     return conv(it.reads), it
+
+
+def _exact_syms(v):
+    """Symbols of read items that the value *is* (possibly wrapped: Some(..), a validated / reference-counted wrapper, one
+    alternative of a conditional), as opposed to symbols it merely depends on (`n + 1`, `min(n, k)`)."""
+    from lenread import _single_symbol
+    out = set()
+    if isinstance(v, Poly):
+        sym = _single_symbol(v)
+        if sym is not None:
+            out.add(sym[0])
+    elif isinstance(v, BufVal):
+        sym = _single_symbol(v.n)
+        if sym is not None:
+            out.add(sym[0])
+    elif isinstance(v, PathVal):
+        if v.path and isinstance(v.path[0], str) and v.path[0].startswith("$"):
+            out.add(v.path[0])
+    elif isinstance(v, Cases):
+        for _i, x in v.pairs:
+            out |= _exact_syms(x)
+    elif isinstance(v, tuple) and v and v[0] in ("some", "checked") and len(v) > 1:
+        out |= _exact_syms(v[1])
+    elif isinstance(v, tuple) and v and v[0] == "struct":
+        for x in v[3].values():          # an enum variant / newtype carrying the value (QosPid::Level1(pid))
+            out |= _exact_syms(x)
+    elif isinstance(v, TupleVal):
+        for x in v.items:
+            out |= _exact_syms(x)
+    return out
 
 
 def _alt(a, b):
@@ -278,6 +314,18 @@ def l_trace(F, R):
                     bad.append("item %d (%s): written from `%s`, read into `%s`" % (i + 1, k1 if not isinstance(k1, tuple) else "list", f1, f2))
             R.check(not bad, "L-trace", "%s/fields" % key,
                     "%s: encoder and decoder disagree on which field an item belongs to: %s" % (short, "; ".join(bad[:3])), where=dec)
+            # value-carrying items (integers wider than a byte, strings / binary data, nested blocks) outside list loops are
+            # written from a field as it is and read into a field as they are: an item without a field label is a value that was
+            # adjusted on its way (clamped, defaulted, normalised, derived from something else)
+            carrying = lambda k: isinstance(k, str) and (k in ("u16", "u32", "bytes") or k.startswith("enc:"))
+            lost_e = ["item %d (%s)" % (i + 1, k1) for i, (k1, f1) in enumerate(E) if carrying(k1) and f1 is None]
+            lost_d = ["item %d (%s)" % (i + 1, k2) for i, (k2, f2) in enumerate(D) if carrying(k2) and f2 is None
+                      and not (k2 == "enc:AuthProperties")]
+            R.check(not lost_e, "L-trace", "%s/value-written" % key,
+                    "%s: the encoder writes %s from something other than a field of the packet as it is" % (short, ", ".join(lost_e[:3])), where=dec)
+            R.check(not lost_d and not it.altered, "L-trace", "%s/value-read" % key,
+                    "%s: the decoder does not store %s in the packet as read%s" % (
+                        short, ", ".join(lost_d[:3]) or "a value", "; fields holding a function of a value read: %s" % sorted(set(it.altered.values())) if it.altered else ""), where=dec)
             labelled = sum(1 for (k1, f1), (k2, f2) in zip(E, D) if f1 is not None and f2 is not None)
             R.sample({"rule": "L-trace", "type": ty, "items": len(E), "field-labelled on both sides": labelled}) if short in ("Connect", "Publish") else None
     R.floor("L-trace", "body types compared", n, 15)
